@@ -108,7 +108,10 @@ class Builder:
         elif k == "vmap":
             callee = self.build(G["callee"])
             assert self.kind(G["callee"]) in ("dist", "fn")
-            out = callee.vmap(in_axes=(0, None if G["bcast"] else 0))
+            if G.get("kwarg"):
+                out = callee.vmap(in_axes=(0,))                                # the argument travels as a keyword (shared by the lanes)
+            else:
+                out = callee.vmap(in_axes=(0, None if G["bcast"] else 0))
         elif k == "scan":
             out = Scan(self.build(G["callee"], role="scan"), length=const(G["n"]))
         elif k == "cond":
@@ -137,7 +140,7 @@ class Builder:
                 callee = B.build(st["callee"])
                 sub = script[st["addr"]]
                 cargs = B.call_args(st["callee"], sub, a)
-                if st["kw"] and B.kind(st["callee"]) == "fn":
+                if st["kw"] and (B.kind(st["callee"]) == "fn" or B.GF[st["callee"]].get("kwarg")):
                     env[st["addr"]] = callee(cargs[0], arg=cargs[1]) @ st["addr"]
                 elif st["kw"] and B.kind(st["callee"]) == "cond":
                     # keyword arguments through a combinator: Cond forwards them to both branches
